@@ -16,6 +16,23 @@ CHECKS = {
     ),
 }
 
+_STORE_TECH = "TLA+ design spec LocalStore.tla/BlockMap.tla (one action per harness scheduling step, code-shaped bookkeeping) model-checked with TLC against the property; TLC-simulated behaviours, shortest counterexamples of design mutants and regression scripts replayed on the assembled real store under a deterministic cooperative scheduler (testing/synctest + verif yield hooks), with completions compared to the design; seeded random cooperative and free-running drivers; every recorded trace validated by TLC against the StoreContractTrace.tla monitor (clause %s), which alone decides VIOLATION"
+_STORE_NOTE = "Trusted: TLC, the simulated block/index devices (reads see the latest write), content identification by pseudo-random payloads, SHA-256. Bounded: exhaustive for 2 clients x <=4 (quick) / 5 (thorough) operations over 3 keys + 2 composite children on 5-6 tiny geometries; simulated behaviours of 3 clients x 9 operations; random runs of 12-200 operations on random geometries (sector 1-8 bytes, blocks 2-12 bytes). Index tables are sized so that no discard occurs (C06 covers the index)."
+CHECKS.update({
+    "C01": dict(level="model_checking", technique=_STORE_TECH % "C01", design_ref="DESIGN.md 4/C01, 10",
+                text="Design |= 'a read yields exactly the content uploaded for its key, NotFound, or a non-integrity error; failed uploads never visible; no integrity error on a clean medium' for every interleaving of the bounded model; the real store is bound by replaying the model's behaviours step by step (zero design drift required on the unchanged tree) and by validating every recorded execution, including randomly scheduled and truly concurrent ones, against the contract monitor.",
+                note=_STORE_NOTE),
+    "C04": dict(level="model_checking", technique=_STORE_TECH % "C04", design_ref="DESIGN.md 4/C04, 10",
+                text="Design invariants: regions conserved (free + listed + popped-but-pinned = total), nothing pinned when nothing is in flight, a pinned block is never free. On real executions the monitor checks that a region is not handed out while a reader (always) or writer (cooperative runs) of its previous incarnation is open, that every reader is closed exactly once, every upload source exactly once, and that at quiescence every block the list released has been returned to the allocator (Prometheus counters).",
+                note=_STORE_NOTE + " Volatile block list only in this check; the persistent list's deferred release is covered by C02/C03/C07 when claimed."),
+    "C05": dict(level="model_checking", technique=_STORE_TECH % "C05", design_ref="DESIGN.md 4/C05, 10",
+                text="Design invariant and observable action property: a key touched successfully (Get data / FindMissing present) stays resolvable until old+1 further blocks were allocated, measured from the start of the touching call and applied to calls started after it ended; on real executions the monitor counts NewBlock events of the real allocator and additionally requires that an immediately repeated touch causes no allocation and no write.",
+                note=_STORE_NOTE),
+    "C08": dict(level="model_checking", technique=_STORE_TECH % "C08", design_ref="DESIGN.md 4/C08, 10",
+                text="Model and harness inject corruption of stored objects (bit flips on the simulated device); design invariant: after detection in block q nothing in blocks <= q resolves; observable properties: an operation invoked after the detection is not served from a block <= q, an upload written into a quarantined block is not acknowledged, acknowledged uploads are readable. The monitor checks the same on reader-open / writer / integrity events of real executions.",
+                note=_STORE_NOTE + " Corruption = flipping the first byte of every stored copy of a key; AC (proto) read buffer factory not exercised, only the CAS factory."),
+})
+
 REASON_WIP = "check not built yet in this round (work in progress; see DESIGN.md section 10 for status)"
 
 
